@@ -584,3 +584,43 @@ def selfcheck_ref(ctx, n=3):
             ctx.brk("correspondence", "driver self-check: memoised estep differs from Engine.step (estepref)", stage="wf")
         done += 1
     ctx.extra["driver_selfcheck_cases"] = done
+
+
+def replay_spec(ctx, prop, data, extra=None):
+    """Generic replay of a stream case: re-run the recorded spec on the implementation, evaluate the oracles and mode B for `prop`; 1 if it still fails."""
+    rp = data.get("replay") or {}
+    if "spec" not in rp:
+        br = (data.get("broken") or [{}])[0]
+        rp = {"spec": br.get("spec"), "case": br.get("case")}
+    if not rp.get("spec"):
+        print("nothing to replay in this file")
+        return 0
+    try:
+        m = genfw.run(rp["spec"], capture_preflush=True)
+    except Exception as e:
+        print(f"the implementation refuses / fails on the recorded model: {type(e).__name__}: {str(e)[:200]}")
+        return 1 if core.impl_raised(ctx, e) else 2
+    net = genfw.extract_net(m)
+    ors, illposed = oracles(m, net)
+    if extra is not None:
+        ors = ors + list(extra(m, net))
+    brs = compare_trace(ctx, rp["spec"], m, net, rp.get("case")) + compare_flush(ctx, m, net)
+    n_before = len(ctx.violations)
+    try:
+        from . import agg_corr
+        agg_corr.check(ctx, [prop], rp["spec"], m, getattr(m, "_verif_parset", None), rp.get("case"))
+    except Exception:
+        pass
+    bad = len(ctx.violations) - n_before
+    for v in ctx.violations[n_before:]:
+        print("ORACLE", v["key"], v["what"][:300])
+    for (p_, k, what) in ors:
+        if p_ == prop:
+            print("ORACLE", k, what)
+            bad += 1
+    for b in brs:
+        if prop in STAGE_PROPS.get(b["stage"], set()):
+            print("MODE-B", b["stage"], b["what"])
+            bad += 1
+    print(f"replay: kinds={''.join(net['kinds'])} nrows={net['nrows']} links={len(net['links'])} steps={len(m.t)} -> {'FAILS' if bad else 'passes'}")
+    return 1 if bad else 0
